@@ -1,9 +1,444 @@
-//! group `reload` — stub (not built yet).
-#![allow(unused)]
+//! group `reload` — C31: the daemon's real `zones::load` / `zones::reload`
+//! (src/bin/quandaryd/zones.rs) and `config::load_from_path` (src/bin/quandaryd/config.rs),
+//! compiled into the harness from the repository under test (see build.rs), run in-process on a
+//! scratch directory with real configuration and zone files and explicit modification times.
+//!
+//! One case = one whole history (syntax: lean/QV/Driver/Reload.lean). The three lines that tie
+//! configuration loading to (re)loading mirror `run.rs` (`try_running`, `reload_zones_and_keys`):
+//! a configuration that fails to load leaves the served catalog untouched.
 use crate::common::*;
+use crate::{config, zones};
+use quandary::class::Class;
+use quandary::db::catalog::Entry;
+use quandary::db::{Catalog, Zone};
+use quandary::name::Name;
+use std::fs;
+use std::path::{Path, PathBuf};
+use std::sync::atomic::{AtomicU64, Ordering};
+use std::time::{Duration, SystemTime};
 
-pub fn run(_op: &str, _a: &[&str]) -> Option<String> {
-    None
+static COUNTER: AtomicU64 = AtomicU64::new(0);
+
+struct Scratch(PathBuf);
+impl Scratch {
+    fn new() -> Self {
+        let d = std::env::temp_dir().join(format!(
+            "qvh-reload-{}-{}",
+            std::process::id(),
+            COUNTER.fetch_add(1, Ordering::Relaxed)
+        ));
+        let _ = fs::remove_dir_all(&d);
+        fs::create_dir_all(&d).expect("scratch dir");
+        Scratch(d)
+    }
+}
+impl Drop for Scratch {
+    fn drop(&mut self) {
+        let _ = fs::remove_dir_all(&self.0);
+    }
 }
 
-pub fn gen(_rng: &mut Rng, _thorough: bool, _em: &mut Emitter) {}
+fn name_of(hexs: &str) -> Option<Box<Name>> {
+    Name::try_from_uncompressed_all(&unhex(hexs)?).ok()
+}
+
+/// `sub.<apex>` in presentation form
+fn sub(label: &str, apex: &Name) -> String {
+    if apex.is_root() {
+        format!("{label}.")
+    } else {
+        format!("{label}.{apex}")
+    }
+}
+
+fn zone_file_text(content: &str) -> Option<String> {
+    let f: Vec<&str> = content.split('.').collect();
+    Some(match f[..] {
+        ["bad"] => "this is ( not a zone file\n".to_string(),
+        ["inv", a, c] => {
+            let apex = name_of(a)?;
+            let class = Class::from(c.parse::<u16>().ok()?);
+            // SOA but no NS at the apex: validation error MissingApexNs
+            format!(
+                "{apex} 3600 {class} SOA {} {} 1 3600 600 86400 60\n",
+                sub("ns", &apex),
+                sub("h", &apex)
+            )
+        }
+        ["ok", id, a, c] => {
+            let apex = name_of(a)?;
+            let class = Class::from(c.parse::<u16>().ok()?);
+            let id: u32 = id.parse().ok()?;
+            // an out-of-zone name server: no glue or address records are needed, in any class
+            format!(
+                "{apex} 3600 {class} SOA ns.outside. {} {id} 3600 600 86400 60\n\
+                 {apex} 3600 {class} NS ns.outside.\n",
+                sub("h", &apex)
+            )
+        }
+        _ => return None,
+    })
+}
+
+fn write_files(dir: &Path, files: &str) -> Option<()> {
+    for e in fs::read_dir(dir).ok()? {
+        let p = e.ok()?.path();
+        if p.extension().map_or(false, |x| x == "zone") {
+            fs::remove_file(p).ok()?;
+        }
+    }
+    if files == "-" {
+        return Some(());
+    }
+    for f in files.split(',') {
+        let [p, m, c] = f.split(':').collect::<Vec<_>>()[..] else { return None };
+        let path = dir.join(format!("z{}.zone", p.parse::<u32>().ok()?));
+        fs::write(&path, zone_file_text(c)?).ok()?;
+        let t = SystemTime::UNIX_EPOCH + Duration::from_secs(1_000_000_000 + m.parse::<u64>().ok()?);
+        fs::OpenOptions::new().write(true).open(&path).ok()?.set_modified(t).ok()?;
+    }
+    Some(())
+}
+
+fn write_config(dir: &Path, zones: &str) -> Option<PathBuf> {
+    let mut text = String::new();
+    if zones == "-" {
+        text.push_str("zones = []\n");
+    } else {
+        for z in zones.split(',') {
+            let [n, c, p] = z.split(':').collect::<Vec<_>>()[..] else { return None };
+            let name = name_of(n)?;
+            let class = Class::from(c.parse::<u16>().ok()?);
+            text.push_str(&format!(
+                "[[zones]]\nname = \"{name}\"\nclass = \"{class}\"\npath = \"z{}.zone\"\n\n",
+                p.parse::<u32>().ok()?
+            ));
+        }
+    }
+    let path = dir.join("quandaryd.toml");
+    fs::write(&path, text).ok()?;
+    Some(path)
+}
+
+fn soa_serial(zone: &quandary::db::HashMapTreeZone) -> Option<u32> {
+    let soa = zone.soa()?;
+    let rdata = soa.rdatas.iter().next()?;
+    let o = rdata.octets();
+    let (_, k1) = Name::try_from_uncompressed(o).ok()?;
+    let (_, k2) = Name::try_from_uncompressed(&o[k1..]).ok()?;
+    let s = o.get(k1 + k2..k1 + k2 + 4)?;
+    Some(u32::from_be_bytes([s[0], s[1], s[2], s[3]]))
+}
+
+type E = Entry<quandary::db::HashMapTreeZone, zones::Metadata>;
+
+fn show_state(e: Option<&E>) -> String {
+    match e {
+        None => "-".into(),
+        Some(Entry::Loaded(z, _)) => match soa_serial(z) {
+            Some(s) => format!("L{s}"),
+            None => "L?".into(),
+        },
+        Some(Entry::FailedToLoad(..)) => "F".into(),
+        Some(Entry::NotYetLoaded(..)) => "N".into(),
+    }
+}
+
+fn run_history(h: &str) -> Option<String> {
+    let scratch = Scratch::new();
+    let dir = &scratch.0;
+    // the keys observed: every (name, class) configured anywhere, in order of first appearance
+    let mut keys: Vec<(Box<Name>, Class)> = Vec::new();
+    for step in h.split('/') {
+        let (z, _) = step.split_once('@')?;
+        if z == "-" {
+            continue;
+        }
+        for zc in z.split(',') {
+            let f: Vec<&str> = zc.split(':').collect();
+            let (n, c) = (name_of(f.first()?)?, Class::from(f.get(1)?.parse::<u16>().ok()?));
+            if !keys.iter().any(|(kn, kc)| *kc == c && **kn == *n) {
+                keys.push((n, c));
+            }
+        }
+    }
+    let probes: Vec<Box<Name>> = keys
+        .iter()
+        .map(|(n, _)| {
+            let mut w = vec![1u8, b'x'];
+            w.extend_from_slice(n.wire_repr());
+            Name::try_from_uncompressed_all(&w).unwrap()
+        })
+        .collect();
+
+    let mut catalog: Option<zones::Catalog> = None;
+    let mut out: Vec<String> = Vec::new();
+    for step in h.split('/') {
+        let (z, f) = step.split_once('@')?;
+        write_files(dir, f)?;
+        let cfg_path = write_config(dir, z)?;
+        // run.rs: try_running / reload_zones_and_keys
+        match config::load_from_path(&cfg_path, catalog.is_some()) {
+            Ok(cfg) => {
+                catalog = Some(match &catalog {
+                    None => zones::load(cfg.zones),
+                    Some(c) => zones::reload(cfg.zones, c),
+                });
+            }
+            Err(_) => {} // "Failed to reload zones and keys": the catalog stays
+        }
+        let g: Vec<String> = keys
+            .iter()
+            .map(|(n, c)| show_state(catalog.as_ref().and_then(|cat| cat.get(n, *c))))
+            .collect();
+        let l: Vec<String> = keys
+            .iter()
+            .zip(&probes)
+            .map(|((_, c), p)| show_state(catalog.as_ref().and_then(|cat| cat.lookup(p, *c))))
+            .collect();
+        out.push(format!("{}|{}", g.join(","), l.join(",")));
+    }
+    Some(format!("ok {}", out.join(";")))
+}
+
+pub fn run(op: &str, a: &[&str]) -> Option<String> {
+    Some(match (op, a) {
+        ("rl", [h]) => {
+            let h = h.to_string();
+            guarded(move || run_history(&h).unwrap_or_else(|| "bad-op".into()))
+        }
+        _ => return None,
+    })
+}
+
+// ------------------------------------------------------------------------------------------
+// generators
+// ------------------------------------------------------------------------------------------
+
+fn wire(labels: &[&[u8]]) -> String {
+    let mut v = Vec::new();
+    for l in labels {
+        v.push(l.len() as u8);
+        v.extend_from_slice(l);
+    }
+    v.push(0);
+    hex(&v)
+}
+
+fn emit(em: &mut Emitter, case: String) {
+    let h = case.strip_prefix("rl ").unwrap().to_string();
+    let r = run("rl", &[&h]).unwrap();
+    em.emit(&case, &r);
+}
+
+/// one zone of the generated universe
+struct Z {
+    name: Vec<&'static [u8]>,
+    alt: Vec<&'static [u8]>, // the same name in another case
+    class: u16,
+    path: usize,
+    configured: bool,
+}
+
+#[derive(Clone)]
+struct F {
+    mtime: u64,
+    content: String,
+}
+
+/// A history over a small universe of nested zones (parent / child / grandchild / sibling, one
+/// zone in class CH). `sound` = files only change content together with a newer mtime (the
+/// environment assumption under which the spec column constrains the case).
+fn random_history(rng: &mut Rng, sound: bool) -> String {
+    let universe: [(&[&'static [u8]], &[&'static [u8]], u16); 6] = [
+        (&[b"a"], &[b"A"], 1),
+        (&[b"b", b"a"], &[b"B", b"a"], 1),
+        (&[b"c", b"b", b"a"], &[b"c", b"B", b"A"], 1),
+        (&[b"d", b"a"], &[b"D", b"a"], 1),
+        (&[b"e"], &[b"E"], 1),
+        (&[b"a"], &[b"a"], 3),
+    ];
+    let n = rng.range(2, 6);
+    let mut zs: Vec<Z> = universe[..n]
+        .iter()
+        .enumerate()
+        .map(|(i, (nm, alt, c))| Z {
+            name: nm.to_vec(),
+            alt: alt.to_vec(),
+            class: *c,
+            path: i + 1,
+            configured: rng.chance(2, 3),
+        })
+        .collect();
+    rng_shuffle(rng, &mut zs);
+    let mut files: Vec<Option<F>> = vec![None; 16];
+    let mut next_id = 1u32;
+    let mut clock = 10u64;
+    let nsteps = rng.range(2, 7);
+    let mut steps: Vec<String> = Vec::new();
+    for si in 0..nsteps {
+        clock += 1;
+        // configuration edits
+        for z in zs.iter_mut() {
+            if si > 0 && rng.chance(1, 5) {
+                z.configured = !z.configured;
+            }
+            if si > 0 && rng.chance(1, 12) {
+                z.path = rng.range(1, 8); // move the zone to another file (maybe another zone's)
+            }
+        }
+        // file edits for every zone of the universe (configured or not)
+        for z in zs.iter() {
+            let apex = wire(&z.name);
+            let cur = files[z.path].clone();
+            let action = rng.below(12);
+            let newer = if sound || rng.chance(2, 3) { clock } else { cur.as_ref().map_or(clock, |f| f.mtime.saturating_sub(rng.below(2) as u64)) };
+            match action {
+                0..=3 => {} // untouched: same content, same mtime
+                4..=6 => {
+                    // new valid version
+                    files[z.path] = Some(F { mtime: newer, content: format!("ok.{next_id}.{apex}.{}", z.class) });
+                    next_id += 1;
+                }
+                7 => files[z.path] = Some(F { mtime: newer, content: "bad".into() }),
+                8 => files[z.path] = Some(F { mtime: newer, content: format!("inv.{apex}.{}", z.class) }),
+                9 => files[z.path] = None, // deleted
+                10 => {
+                    // touched: same content, newer mtime
+                    if let Some(f) = files[z.path].as_mut() {
+                        f.mtime = clock;
+                    }
+                }
+                _ => {
+                    // a valid file for a *different* apex (wrong file in place)
+                    let other = wire(&[b"z", b"z"]);
+                    files[z.path] = Some(F { mtime: newer, content: format!("ok.{next_id}.{other}.{}", z.class) });
+                    next_id += 1;
+                }
+            }
+        }
+        let mut zl: Vec<String> = zs
+            .iter()
+            .filter(|z| z.configured)
+            .map(|z| {
+                let nm = if rng.chance(1, 6) { &z.alt } else { &z.name };
+                format!("{}:{}:{}", wire(nm), z.class, z.path)
+            })
+            .collect();
+        if rng.chance(1, 15) && !zl.is_empty() {
+            // a duplicated zone: config.rs must reject the whole configuration
+            let d = rng.pick(&zl).clone();
+            zl.push(d);
+        }
+        let fl: Vec<String> = files
+            .iter()
+            .enumerate()
+            .filter_map(|(p, f)| f.as_ref().map(|f| format!("{p}:{}:{}", f.mtime, f.content)))
+            .collect();
+        steps.push(format!(
+            "{}@{}",
+            if zl.is_empty() { "-".into() } else { zl.join(",") },
+            if fl.is_empty() { "-".into() } else { fl.join(",") }
+        ));
+    }
+    format!("rl {}", steps.join("/"))
+}
+
+fn rng_shuffle<T>(rng: &mut Rng, v: &mut [T]) {
+    for i in (1..v.len()).rev() {
+        let j = rng.below(i + 1);
+        v.swap(i, j);
+    }
+}
+
+/// systematic: parent `a.` and child `b.a.`; every combination of a per-step action on each of
+/// the two zones over `len` steps. Actions: keep, new valid version, break (bad file, newer),
+/// delete file, unconfigure, (re)configure.
+fn systematic(em: &mut Emitter, len: usize) {
+    const NA: usize = 6;
+    let total = (NA * NA).pow(len as u32);
+    let a = wire(&[b"a"]);
+    let b = wire(&[b"b", b"a"]);
+    for code in 0..total {
+        let mut c = code;
+        let mut conf = [true, false];
+        let mut files: [Option<F>; 2] = [Some(F { mtime: 10, content: format!("ok.1.{a}.1") }), None];
+        let mut next_id = 2;
+        let mut steps = Vec::new();
+        // step 0: only the parent, loaded
+        steps.push(format!("{a}:1:1@1:10:ok.1.{a}.1"));
+        for si in 0..len {
+            let clock = 11 + si as u64;
+            for zi in 0..2 {
+                let act = c % NA;
+                c /= NA;
+                let apex = if zi == 0 { &a } else { &b };
+                match act {
+                    0 => {}
+                    1 => {
+                        files[zi] = Some(F { mtime: clock, content: format!("ok.{next_id}.{apex}.1") });
+                        next_id += 1;
+                    }
+                    2 => files[zi] = Some(F { mtime: clock, content: "bad".into() }),
+                    3 => files[zi] = None,
+                    4 => conf[zi] = false,
+                    _ => conf[zi] = true,
+                }
+            }
+            let mut zl = Vec::new();
+            if conf[0] {
+                zl.push(format!("{a}:1:1"));
+            }
+            if conf[1] {
+                zl.push(format!("{b}:1:2"));
+            }
+            let fl: Vec<String> = files
+                .iter()
+                .enumerate()
+                .filter_map(|(p, f)| f.as_ref().map(|f| format!("{}:{}:{}", p + 1, f.mtime, f.content)))
+                .collect();
+            steps.push(format!(
+                "{}@{}",
+                if zl.is_empty() { "-".into() } else { zl.join(",") },
+                if fl.is_empty() { "-".into() } else { fl.join(",") }
+            ));
+        }
+        emit(em, format!("rl {}", steps.join("/")));
+    }
+}
+
+pub fn gen(rng: &mut Rng, thorough: bool, em: &mut Emitter) {
+    let a = wire(&[b"a"]);
+    let b = wire(&[b"b", b"a"]);
+    // 0. the D12 shape: a never-loaded failing child under a loaded parent (missing file, bad
+    //    file, invalid file), then the child gets fixed, then broken again
+    for broken in ["", "2:11:bad", &format!("2:11:inv.{b}.1")] {
+        let f2 = if broken.is_empty() { String::new() } else { format!(",{broken}") };
+        emit(
+            em,
+            format!(
+                "rl {a}:1:1@1:10:ok.1.{a}.1/{a}:1:1,{b}:1:2@1:10:ok.1.{a}.1{f2}/{a}:1:1,{b}:1:2@1:10:ok.1.{a}.1,2:12:ok.2.{b}.1/{a}:1:1,{b}:1:2@1:13:bad,2:13:bad/{b}:1:2@2:13:bad"
+            ),
+        );
+    }
+    // mtime bookkeeping: equal mtime is "unchanged", a failed load does not advance the recorded
+    // mtime, an older file is not reloaded (spec column `-` where content changed silently)
+    emit(em, format!("rl {a}:1:1@1:10:ok.1.{a}.1/{a}:1:1@1:10:ok.1.{a}.1/{a}:1:1@1:12:bad/{a}:1:1@1:11:ok.3.{a}.1/{a}:1:1@1:11:ok.3.{a}.1"));
+    emit(em, format!("rl {a}:1:1@1:10:ok.1.{a}.1/{a}:1:1@1:10:ok.2.{a}.1/{a}:1:1@1:9:ok.3.{a}.1/{a}:1:1@1:11:ok.4.{a}.1"));
+    // path change forces a reload; duplicate zone = configuration error
+    emit(em, format!("rl {a}:1:1@1:10:ok.1.{a}.1,2:10:ok.2.{a}.1/{a}:1:2@1:10:ok.1.{a}.1,2:10:ok.2.{a}.1/{a}:1:2,{a}:1:1@1:10:ok.1.{a}.1,2:10:ok.2.{a}.1/-@-"));
+
+    // 1. systematic two-zone histories
+    systematic(em, if thorough { 3 } else { 2 });
+    // 2. random histories over the nested universe
+    let n = if thorough { 20_000 } else { 1_500 };
+    for _ in 0..n {
+        let c = random_history(rng, true);
+        emit(em, c);
+    }
+    let n = if thorough { 4_000 } else { 300 };
+    for _ in 0..n {
+        let c = random_history(rng, false);
+        emit(em, c);
+    }
+}
